@@ -9,6 +9,7 @@ import (
 	"io/fs"
 	"io/ioutil"
 	"os"
+	"path/filepath"
 	"reflect"
 	"runtime"
 	"strings"
@@ -251,6 +252,16 @@ func unmarshalJsonFile(path string, i interface{}) (err error) {
 	return
 }
 
+// tmpPath returns the name of the temporary file used to write path. It does
+// not start with a UUID so it is never taken for an object file.
+func tmpPath(path string) string {
+	return filepath.Join(filepath.Dir(path), fmt.Sprintf(".tmp-%s", filepath.Base(path)))
+}
+
+// writeReader writes the content of r to path. Data is first written to a
+// temporary file which is renamed to path at the end, so that a crash at any
+// point leaves either the old or the new content under path, never a truncated
+// or partially written file.
 func writeReader(path string, r io.Reader, perms fs.FileMode, compress bool) (err error) {
 	var out *os.File
 	var w io.WriteCloser
@@ -259,24 +270,38 @@ func writeReader(path string, r io.Reader, perms fs.FileMode, compress bool) (er
 		path = fmt.Sprintf("%s%s", path, compressedExtension)
 	}
 
-	if out, err = os.OpenFile(path, os.O_CREATE|os.O_TRUNC|os.O_RDWR, perms); err != nil {
+	tmp := tmpPath(path)
+	if out, err = os.OpenFile(tmp, os.O_CREATE|os.O_TRUNC|os.O_RDWR, perms); err != nil {
 		return
 	}
-	defer out.Close()
 
 	// default value for writer
 	w = out
 	if compress {
 		if w, err = gzip.NewWriterLevel(out, gzip.BestSpeed); err != nil {
+			out.Close()
+			os.Remove(tmp)
 			return
 		}
-		defer w.Close()
 	}
 
-	if _, err = io.Copy(w, r); err != nil {
+	if _, err = io.Copy(w, r); err == nil {
+		err = w.Close()
+	}
+
+	// closing the file if not already done
+	if compress {
+		if e := out.Close(); err == nil {
+			err = e
+		}
+	} else if err != nil {
+		out.Close()
+	}
+
+	if err != nil {
+		os.Remove(tmp)
 		return
 	}
 
-	return w.Close()
-
+	return os.Rename(tmp, path)
 }
